@@ -5,7 +5,7 @@ from __future__ import annotations
 from datetime import timedelta
 
 from catalog import ALL_KINDS, AVERAGES, C05_KINDS, C06_KINDS, IndCfg
-from streams import compositions, make_stream
+from streams import compositions, gen_prices, make_stream
 
 STYLES = ["mixed", "walk", "decimal", "mixed", "walk"]
 DEGENERATE = ["flat", "up", "down", "zero_vol", "mixed", "inside", "repeat", "inside_then_walk",
@@ -362,6 +362,39 @@ def fam_manager(rng, pid, count, fills=(False,), has=(False,), lifes=(None,), he
     return out
 
 
+def fam_longgap(rng, pid, count):
+    """a feed that pauses for a long time (a weekend on a one-minute timeframe, a quarter of an hour on a
+    one-second one): one gap of about a thousand buckets among short ones, through a bare manager and through
+    an indicator; "from the first bucket to the last" has no upper limit on the length of a gap"""
+    from streams import tf_seconds
+
+    out = []
+    for t in range(count):
+        tf = rng.choice(["S1", "S5", "T1", "T5", "H1"])
+        secs = tf_seconds(tf)
+        buckets = [999, 1000, 1001, 1024, 1440, 2000][t % 6]
+        n = rng.randint(6, 9)
+        prices = gen_prices(rng, n, "walk")
+        at = rng.randrange(1, n - 1)            # the long pause comes before candle `at` (0-based)
+        ts, cur = [], rng.choice([0, max(1, secs // 2)])
+        for i in range(n):
+            if i:
+                cur += buckets * secs if i == at else rng.choice([secs, secs, 2 * secs, 3 * secs, max(1, secs // 2)])
+            ts.append(cur)
+        st = [(a,) + p for a, p in zip(ts, prices)]
+        pre, chunks = compositions(rng, n, (0, 1, at, at + 1, n), 3)
+        bare = t % 2 == 0
+        cfg = rand_cfg(rng, "HLA", tf=tf, fill=True)
+        sc = {"id": f"{pid}/longgap/{tf}/{buckets}/{t}", "fam": "manager", "obj": "mgr" if bare else "ind",
+              "inds": [] if bare else [cfg], "stream": st, "prog": prog_for(pre, chunks), "twins": [], "form": "candle",
+              "names_fixed": True}
+        if bare:
+            sc["mgr"] = {"tf": tf, "tf_form": "upper", "fill": True, "life": None, "ha": False}
+            sc["prog"] = [x for x in sc["prog"] if x[0] != "calculate"]
+        out.append(sc)
+    return out
+
+
 LOOK1 = ["EMA", "RMA", "ATR", "KC", "RSI", "MACD", "TSI", "ADX", "Supertrend", "OBV", "VWAP", "TR"]
 LOOKP = ["SMA", "WMA", "VWMA", "STDEV", "BBANDS", "ROC", "HL", "AROON", "DONCHIAN", "STOCH", "HMA"]
 
@@ -483,7 +516,8 @@ TZS = ["UTC", "Asia/Kolkata", "Asia/Kathmandu", "America/New_York", "Europe/Lond
        "Australia/Lord_Howe", "Pacific/Chatham", "America/St_Johns"]
 
 
-FORMS = ["candle", "candle", "candle", "dict", "list", "list_ts_last", "dict_iso", "dict_cap", "candle_iso"]
+FORMS = ["candle", "candle", "candle", "dict", "list", "list_ts_last", "dict_iso", "dict_cap", "candle_iso",
+         "dict_mix", "dict_mix2"]
 
 
 def decorate(rng, scs):
@@ -518,6 +552,11 @@ def decorate(rng, scs):
             # indicator with a timeframe (before or after the observed object gets them)
             sc["feed_to"] = {"tf": rng.choice(tfs + ["T5", "S30"]), "ha": rng.random() < 0.6,
                              "fill": rng.random() < 0.2, "order": rng.choice(["first", "after"])}
+            # (the neighbour fills gaps only on one of the scenario's own timeframes and without Heikin-Ashi: on
+            #  a finer one a stream spanning hours means thousands of fillers rebuilt on every append -- the
+            #  neighbour, not the observed object, then runs into the per-call time limit)
+            if sc["feed_to"]["ha"] or sc["feed_to"]["tf"] not in tfs:
+                sc["feed_to"]["fill"] = False
         for j, c in enumerate(mem):
             if c.timeframe and "_tf_form" not in c.extra:
                 # members that share a timeframe spell it differently more often than not: the shared
@@ -606,7 +645,7 @@ def _scenarios(pid, tier, rng):
                 # construction or appended): each is the resampling of the same stream
                 + fam_hexital(rng, pid, k(30, 200), twins=()))
     if pid == "C12":
-        scs = fam_manager(rng, pid, k(420, 2000), fills=(True,), twins=("batch",))
+        scs = fam_manager(rng, pid, k(420, 2000), fills=(True,), twins=("batch",)) + fam_longgap(rng, pid, k(6, 24))
         for sc in scs:
             # "the outcome is the same for every append schedule": the filled series with everything on it
             sc["clause_props"] = dict(sc.get("clause_props", {}), batch=["C12", "C01"])
@@ -895,6 +934,17 @@ def fam_interference(rng, pid, count):
                            extra={"fullname_override": "NARROW", "_args_split": True})]
             if rng.random() < 0.5:
                 cfgs.reverse()
+        if t % 12 == 9:
+            # the same class with the same parameters twice: one as generated, one with a label of the user's
+            # and another input -- the generated name of the first is the PREFIX-less name of the second
+            base = rand_cfg(rng, rng.choice(["SMA", "EMA", "WMA", "RMA"]))
+            other = base.clone()
+            other.inp = rng.choice([x for x in ("high", "low", "open", "volume") if x != base.inp])
+            other.extra = dict(other.extra, **rng.choice([{"name_suffix": other.inp},
+                                                          {"fullname_override": f"{base.kind}_{other.inp}"}]))
+            cfgs = [base, other]
+            if rng.random() < 0.5:
+                cfgs.reverse()
         n = rng.randint(24, 30)
         tf = None
         if t % 3 == 1:
@@ -935,6 +985,8 @@ def fam_interference(rng, pid, count):
             rng.shuffle(mixed_forms)
         prog = prog_for(pre, chunks)
         victim = rng.choice(names)
+        if t % 12 == 9:
+            victim = other.build(standalone=False).name if t % 24 == 9 else victim
         a = n - 6
         # (under a Hexital-level lifespan a recalculation works on the trimmed list and legitimately differs
         #  from readings computed while the history was still there: only presence, form and order vary there)
@@ -1278,6 +1330,11 @@ def fam_hexital(rng, pid, count, twins=("standalone",), force_ha=False):
             # a pattern / movement wrapper as a member, also rebuilt from its own settings
             am = amorph_cfg(rng)
             am.timeframe = rng.choice([None] + ladder)
+            if rng.random() < 0.4 and am.fn not in ("positive", "negative"):
+                # a function of the user's own that is merely CALLED like a built-in one (and computes something
+                # else): given as a callable it is used as given, as an object member and as a dict member alike
+                pool = PATS if am.fn in PATS else (MOVE2[2:] if am.fn in MOVE2 else MOVE1)
+                am.extra = dict(am.extra, _user_fn=rng.choice([x for x in pool if x != am.fn]))
             cfgs = _uniq(cfgs + [am])
         if len(cfgs) >= 2 and rng.random() < 0.4:
             shared = rng.choice(ladder)            # two members on one timeframe = one shared manager
@@ -1310,6 +1367,9 @@ def fam_hexital(rng, pid, count, twins=("standalone",), force_ha=False):
                           tf=small, regular=regular,
                           pre_choices=(0, 1, 2, n), forms=[rng.choice(["obj", "dict", "settings"]) for _ in cfgs],
                           form=rng.choice(["candle", "candle", "dict"]))
+        # (a user's callable survives as a callable only: its settings name the function, they do not carry it)
+        sc["member_forms"] = ["dict" if (f == "settings" and "_user_fn" in c.extra) else f
+                              for f, c in zip(sc["member_forms"], sc["inds"])]
         if pid == "C08":
             sc["clause_props"] = {"exc": ["C08"], "stage": ["C08"], "def": ["C08"], "value": ["C08"]}
         else:
@@ -1345,6 +1405,11 @@ def fam_scale(rng, pid, count, hists=(60, 300)):
             # a pattern / movement function wrapped as an indicator (also the ones named like a candle's own
             # properties: positive, negative), standalone or as a dict member
             cfg = amorph_cfg(rng, prefer=(("positive", "negative") if t % 12 == 3 else None))
+            if t % 12 == 9:
+                # a look-back of zero (or less) candles is an empty window -- "nothing crossed" -- however long the
+                # history is; over two series that never cross (high / low) nothing ends a scan early
+                cfg = IndCfg("Amorph", fn=rng.choice(["cross", "crossover", "crossunder"]), inp="high", inp2="low",
+                             p=rng.choice([0, 0, -1]))
             if rng.random() < 0.5:
                 sc = {"id": f"{pid}/scale/amorph/{cfg.fn}/{t}", "obj": "ind", "inds": [cfg]}
             else:
@@ -1764,7 +1829,7 @@ def amorph_cfg(rng, src_name=None, prefer=None):
     if fn in ("above", "below"):
         return IndCfg("Amorph", fn=fn, inp=a, inp2=b)
     if fn in MOVE2:
-        return IndCfg("Amorph", fn=fn, inp=a, inp2=b, p=rng.randint(1, 3))
+        return IndCfg("Amorph", fn=fn, inp=a, inp2=b, p=rng.choice([1, 2, 3, 1, 2, 3, 0]))
     return IndCfg("Amorph", fn=fn, inp=a, p=rng.randint(1, 4))
 
 
